@@ -57,6 +57,10 @@ def netlist_tree(c):
             d["hard"] = True
         else:
             d["area"] = X.num(m["area"] * u * u)
+            if m.get("split"):
+                # the same area given per region (ground and / or specialised regions of the die)
+                tot = sum(k for _, k in m["split"])
+                d["area"] = {t: X.num(m["area"] * u * u * k / tot) for t, k in m["split"]}
         if m.get("withdrawn"):
             # declared with a rectangle that is withdrawn after loading: the module is then a soft module without rectangles again
             d["rectangles"] = [D.rect_entry(m["withdrawn"][:4], unit)]
@@ -229,6 +233,8 @@ def run_alloc(c):
         if abs(Fr(alloc.area("F%d" % k)) - own) > atol:
             raise Violation("area(F%d) = %r, its rectangles have area %s" % (k, alloc.area("F%d" % k), float(own)), "fixed-area")
     cls = ["descriptions-loaded-twice"] if c.get("reuse") else []
+    if any(m.get("split") and not m["rects"] and len(m["split"]) > 1 and m["split"][0][0] == "_" for m in c["modules"]):
+        cls.append("square-of-an-area-split-between-ground-and-other-regions")
     if any(m.get("withdrawn") for m in c["modules"]):
         cls.append("rectangles-withdrawn-after-loading")
     if any(m.get("released") for m in c["modules"]):
@@ -299,6 +305,12 @@ def case_s(draw):
                 rs = [[x0, y0, draw(_i(max(x0 + 1, -x0 + 1), W + 3)), draw(_i(max(y0 + 1, -y0 + 1), H + 3))]]
             m["rects"] = [list(r) for r in rs]
             m["area"] = sum((r[2] - r[0]) * (r[3] - r[1]) for r in rs)
+        if m["kind"] == "soft" and draw(_i(0, 2)) == 0:
+            tags = sorted({r[4] for r in dc["regions"] if r[4] != "#"})
+            pick = ["_"] + [t for t in tags if draw(st.booleans())]
+            if len(pick) > 1 and draw(_i(0, 3)) == 0:
+                pick = pick[1:]
+            m["split"] = [[t, draw(_i(1, 9))] for t in pick]
         mods.append(m)
     for m in mods:
         if m["kind"] == "hard" and draw(_i(0, 3)) == 0:
@@ -311,4 +323,5 @@ def case_s(draw):
 def subchecks():
     return [Sub("designs", run_alloc, strategy=case_s(), n_quick=5000, n_thorough=120000, fuzz_thorough=2500,
                 required=("with-fixed", "refined-split", "refined-grid", "include-zero", "square-from-centre", "hard-module",
-                          "sticks-out", "overlaps-fixed-cell", "covers-a-cell-completely", "tiny-die", "hard-module-recentred-in-place", "descriptions-loaded-twice", "fixed-module-released-before-the-die-was-built", "rectangles-withdrawn-after-loading"))]
+                          "sticks-out", "overlaps-fixed-cell", "covers-a-cell-completely", "tiny-die", "hard-module-recentred-in-place", "descriptions-loaded-twice", "fixed-module-released-before-the-die-was-built", "rectangles-withdrawn-after-loading",
+                          "square-of-an-area-split-between-ground-and-other-regions"))]
